@@ -469,7 +469,7 @@ class ProtocolCommand:
             raise RequestFailedException(
                 "No response received to '" + self.request.hex() + "' request."
             )
-        except (asyncio.CancelledError, ConnectionRefusedError):
+        except (asyncio.CancelledError, OSError):
             raise RequestFailedException(
                 "No valid response received to '" + self.request.hex() + "' request."
             ) from None
